@@ -7,12 +7,7 @@ From J5V.model Require Import ReflectDesc ReflectSchema Reflect.
 Import ListNotations.
 Local Open Scope bool_scope.
 
-Fixpoint nodup_str (l : list str) : bool :=
-  match l with
-  | [] => true
-  | x :: r => negb (existsb (str_eqb x) r) && nodup_str r
-  end.
-Definition names_unique_b (ps : list prop) : bool := nodup_str (map p_json ps).
+(* nodup_str / names_unique_b: in Reflect.v (the reader itself checks property names since fix 07ed85e) *)
 
 Section WithDesc.
 Variable D : desc.
@@ -131,8 +126,12 @@ Definition set_consistent (st : sset) : bool :=
 Definition cls {A} (o : outcome A) : N := N.of_nat (Outcome.kind o).
 Definition worst (a b : N) : N := N.max a b.
 
-(* class of building one property with its value set *)
-Definition prop_class (st : sset) (m : msgd) (pf : prop * option field) : N :=
+(* class of building one property with its value set.  [sw = true]: what the ENCODER is observed to do:
+   oneofField.IsSet swallows the error of GetOne, a member whose property cannot be built makes the
+   exposed oneof count as unset and the encode succeeds without it (the correspondence compares this).
+   [sw = false]: the property itself: a member that cannot be built is a failure (the specification
+   C18_full_statement uses this: a silently dropped oneof is not "usable") *)
+Definition prop_class_sw (sw : bool) (st : sset) (m : msgd) (pf : prop * option field) : N :=
   match pf with
   | (p, Some f) => cls (build_property D st p f)
   | (p, None) =>
@@ -142,13 +141,11 @@ Definition prop_class (st : sset) (m : msgd) (pf : prop * option field) : N :=
           | Some (Linked (ROneof n d ops)) =>
               match new_prop_set D st (ROneof n d ops) m with
               | Ok opfs =>
-                  (* oneofField.IsSet swallows the error of GetOne: a member whose property cannot be
-                     built makes the exposed oneof count as unset, and the encode succeeds without it *)
                   fold_right (fun q acc =>
                                 worst acc (match q with
                                            | (p2, Some f2) =>
                                                let c := cls (build_property D st p2 f2) in
-                                               if N.eqb c 1 then 0%N else c
+                                               if sw && N.eqb c 1 then 0%N else c
                                            | (_, None) => 0%N
                                            end)) 0%N opfs
               | o => cls o
@@ -158,6 +155,7 @@ Definition prop_class (st : sset) (m : msgd) (pf : prop * option field) : N :=
       | _ => 1%N
       end
   end.
+Definition prop_class := prop_class_sw true.
 
 (* propSet.asMap is keyed by JSON name: of several properties with one name, RangeValues reaches
    only the last one (GetValue looks the name up in the map) *)
@@ -165,10 +163,38 @@ Definition last_named (pfs : list (prop * option field)) (pf : prop * option fie
   fold_left (fun acc q => if str_eqb (p_json (fst q)) (p_json (fst pf)) then q else acc) pfs pf.
 
 (* (class of the root property set, worst class over the properties) *)
-Definition codec_classes (st : sset) (m : msgd) (r : root) : N * N :=
+Definition codec_classes_sw (sw : bool) (st : sset) (m : msgd) (r : root) : N * N :=
   match new_prop_set D st r m with
-  | Ok pfs => (0%N, fold_right (fun pf acc => worst acc (prop_class st m (last_named pfs pf))) 0%N pfs)
+  | Ok pfs => (0%N, fold_right (fun pf acc => worst acc (prop_class_sw sw st m (last_named pfs pf))) 0%N pfs)
   | o => (cls o, cls o)
   end.
+Definition codec_classes := codec_classes_sw true.          (* as the encoder behaves *)
+Definition codec_classes_strict := codec_classes_sw false.  (* no member error swallowed *)
+
+(* ---- the kinds of client properties the codec supports.
+   [factory_b]: buildProperty has a factory: no array / map whose items are any-typed, maps or arrays
+   (google.protobuf.Struct reads as a map of any), no map schema on a field that is not a map.
+   [supported_b] in addition: no google.protobuf.Duration.  wktSchema reads it as a string scalar of
+   format "duration" with WellKnownTypeName set; the factory exists and the ENCODER prints the message
+   as prototext, but every way of SETTING a value fails: scalarReflectFromGo / FromAST yield a Go
+   string and checkValueKind (type_scalar.go) rejects a non-message value for a scalar backed by a
+   message type ("values of type google.protobuf.Duration are not supported"): such a message cannot be
+   decoded.  Each excluded class is a known finding (KNOWN_FINDINGS.txt). *)
+Definition item_ok (it : fschema) : bool :=
+  match it with FAny _ _ _ | FMap _ _ _ | FArray _ _ _ => false | _ => true end.
+Definition factory_b (s : fschema) (f : field) : bool :=
+  match s with
+  | FArray it _ _ => item_ok it
+  | FMap it _ _ => (match f_card f with CMap _ => true | _ => false end) && item_ok it
+  | _ => true
+  end.
+Definition is_duration (s : fschema) : bool :=
+  match s with FScalar (Some (_, w)) _ => str_eqb w s_Duration | _ => false end.
+Definition value_settable (s : fschema) : bool :=
+  match s with
+  | FArray it _ _ | FMap it _ _ => negb (is_duration it)
+  | _ => negb (is_duration s)
+  end.
+Definition supported_b (s : fschema) (f : field) : bool := factory_b s f && value_settable s.
 
 End WithDesc.
